@@ -671,6 +671,68 @@ func revocationCheck(res *core.Result) core.Sub {
 	return sub
 }
 
+// tokenAliasCheck: moderation of a client that joined with a stateful token
+// must not change what the token grants to the next bearer.
+func tokenAliasCheck(res *core.Result) core.Sub {
+	sub := core.Sub{Name: "token-login-after-moderation", Exhaustive: true}
+	var outc core.Outcomes
+	kinds := []string{"op", "unop", "present", "unpresent", "shutup", "unshutup"}
+	var seqs [][]string
+	for _, a := range kinds {
+		seqs = append(seqs, []string{a})
+		for _, b := range kinds {
+			seqs = append(seqs, []string{a, b})
+		}
+	}
+	for _, perms := range [][]string{{"present", "message"}, {"message", "present"}, {"op", "present", "message"}, {"present"}} {
+		for _, seq := range seqs {
+			w := sig.NewWorld(sig.FixtureGroups(false, 0), 3)
+			exp := vtime.Now().Add(time.Hour)
+			token.Update(&token.Stateful{Token: "shared", Group: "g", Permissions: append([]string(nil), perms...), Expires: &exp}, "")
+			run := func(i int, m sig.Msg) string {
+				o := w.Send(i, m)
+				if o.Panic != "" {
+					return o.Panic
+				}
+				return w.Settle(nil)
+			}
+			pan := run(1, sig.Join("g", "alice", "pa"))
+			if pan == "" {
+				pan = run(0, sig.Msg{"type": "join", "kind": "join", "group": "g", "username": "guest1", "token": "shared"})
+			}
+			for _, k := range seq {
+				if pan == "" {
+					pan = run(1, sig.Msg{"type": "useraction", "kind": k, "source": "c1", "username": "alice", "dest": "c0"})
+				}
+			}
+			if pan == "" {
+				pan = run(2, sig.Msg{"type": "join", "kind": "join", "group": "g", "username": "guest2", "token": "shared"})
+			}
+			sub.Executions++
+			if pan != "" {
+				res.Violate(core.Violation{Signature: "C11/panic/" + sig.PanicSite(pan) + "/token-moderation", What: pan})
+				w.Close()
+				continue
+			}
+			got := w.Clients[2].V.Permissions()
+			sort.Strings(got)
+			want := append([]string(nil), perms...)
+			sort.Strings(want)
+			outc.Add(fmt.Sprint(got))
+			if fmt.Sprint(got) != fmt.Sprint(want) {
+				res.Violate(core.Violation{Signature: "C11/token-permissions-changed-by-moderation",
+					What: fmt.Sprintf("token grants %v; after its first bearer was moderated with %v, the next bearer of the same token holds %v", perms, seq, got),
+					Replay: map[string]any{"sub": "token-alias", "perms": perms, "seq": seq}})
+			}
+			w.Close()
+		}
+	}
+	sub.States, sub.Transitions, sub.Outcomes = sub.Executions, sub.Executions, outc.N()
+	sub.Bound = "token permission lists(4) x moderation sequences of length <=2 over 6 kinds(42)"
+	sub.Samples = []any{"token [present message]: guest1 joins, alice: unpresent guest1, guest2 joins with the same token"}
+	return sub
+}
+
 func main() {
 	t0 := time.Now()
 	o := core.ParseFlags(80, 900)
@@ -700,6 +762,9 @@ func main() {
 	}
 	if o.Shard == 2%o.Shards && core.Want("revocation") {
 		res.AddSub(revocationCheck(res))
+	}
+	if o.Shard == 3%o.Shards && core.Want("token-login") {
+		res.AddSub(tokenAliasCheck(res))
 	}
 	sig.Cleanup()
 	core.Finish(res, t0)
